@@ -14,7 +14,7 @@ TECHNIQUE = ('metamorphic property-based testing (Hypothesis): a generated progr
              'random subset of meaning-preserving rewrites (letter case of mnemonics / register names, spaces<->tabs and '
              'their amount between tokens, blank lines, comments, label on its own line <-> in front of its statement, '
              'consecutive instructions joined on one line); both texts are assembled by the real CLI and must give the '
-             'same exit status and image')
+             'same exit status and image; plus exhaustive enumeration of quoted-character statements followed by every comment text up to length 2 (quick) / 4 (thorough) and of two such statements on one line')
 RULE = ('Programs as in C02 (labels that look like mnemonics/registers - mov1, amov, xa, hl2, jmp2 - are used as operands) '
         'with a per-line surface drawn independently: mnemonic case, register case, separator after the mnemonic '
         '(space(s)/tab(s)), separators around commas, indentation, trailing blanks, comment text (any printable text '
